@@ -7,7 +7,7 @@
 //! covered by the implementation-only oracle.
 use font_test_data::bebuffer::BeBuffer;
 use font_types::{Fixed, Int24, Tag, Uint24};
-use incremental_font_transfer::patch_group::PatchGroup;
+use incremental_font_transfer::patch_group::{PatchGroup, UriStatus};
 use incremental_font_transfer::patchmap::{
     intersecting_patches, DesignSpace, FeatureSet, PatchFormat, PatchUri, SubsetDefinition,
 };
@@ -162,13 +162,14 @@ fn my_expand(template: &str, id: &AId) -> String {
 
 struct GenOpts {
     malformed: bool,
-    mode: u64, // 0 glyph-keyed only, 1 partial+glyph, 2 anything, 3 mostly invalidating
+    mode: u64, // 0 glyph-keyed only, 1 partial+glyph, 2 anything, 3 mostly invalidating, 4 table-keyed only
 }
 
 fn gen_table(rng: &mut Rng, tag: u8, cid: u32, template: (&str, bool), o: &GenOpts, st: &mut Stats) -> ATable {
     let string_ids = rng.chance(1, 6);
     let default_fmt: u8 = match o.mode {
         0 => 3,
+        4 => *rng.pick(&[1u8, 2]),
         1 => *rng.pick(&[2u8, 3, 3]),
         _ => 1 + rng.below(3) as u8,
     };
@@ -212,6 +213,7 @@ fn gen_table(rng: &mut Rng, tag: u8, cid: u32, template: (&str, bool), o: &GenOp
             0 => 3,
             1 => *rng.pick(&[2u8, 3, 3, 3]),
             3 => *rng.pick(&[1u8, 2, 2, 2, 3]),
+            4 => *rng.pick(&[1u8, 2, 2, 2, 2]),
             _ => *rng.pick(&[1u8, 2, 2, 3, 3, 3]),
         };
         // --- features & design space
@@ -833,6 +835,116 @@ fn format1_oracle(rng: &mut Rng, st: &mut Stats, rounds: usize) {
     }
 }
 
+// ---------------------------------------------------------------- extension loop (real apply_next_patches)
+
+fn noop_table_keyed_patch(cid: u32) -> Vec<u8> {
+    BeBuffer::new().push(Tag::new(b"iftk")).push(0u32).extend([0u32, 0, 0, cid]).push(0u16).push(0u32).as_slice().to_vec()
+}
+
+type PdObs = Vec<(i64, bool)>;
+
+fn snapshot(pd: &HashMap<String, UriStatus>, rank: &BTreeMap<String, i64>) -> PdObs {
+    let mut v: PdObs = pd.iter().map(|(u, s)| (rank.get(u).copied().unwrap_or(-2), matches!(s, UriStatus::Pending(_)))).collect();
+    v.sort();
+    v
+}
+
+/// Runs select -> apply rounds on the real code with no-op table-keyed patches until an error.
+/// Only for fonts whose entries are all table-keyed and whose tables use different URI templates.
+fn run_loop(rng: &mut Rng, tables: &[ATable], d: &ADef, rank: &BTreeMap<String, i64>, st: &mut Stats, key: &str) -> Vec<(PdObs, Option<PdObs>)> {
+    let mut out = vec![];
+    let mut font = build_font(tables);
+    let rd = real_def(d);
+    let mut pd: HashMap<String, UriStatus> = HashMap::new();
+    for t in tables {
+        for e in &t.entries {
+            if let Some(u) = &e.uri {
+                pd.insert(u.clone(), UriStatus::Pending(noop_table_keyed_patch(t.cid)));
+            }
+        }
+    }
+    let keys: Vec<String> = {
+        let mut k: Vec<String> = pd.keys().cloned().collect();
+        k.sort();
+        k
+    };
+    match rng.below(4) {
+        0 => {
+            if !keys.is_empty() {
+                let k = rng.pick(&keys).clone();
+                pd.remove(&k);
+                st.count("loop.init_missing_uri");
+            }
+        }
+        1 => {
+            for k in &keys {
+                if rng.chance(1, 3) {
+                    pd.insert(k.clone(), UriStatus::Applied);
+                }
+            }
+            st.count("loop.init_some_applied");
+        }
+        _ => st.count("loop.init_all_pending"),
+    }
+    let initial_pending = snapshot(&pd, rank).iter().filter(|x| x.1).count();
+    let mut ok_rounds = 0usize;
+    for _ in 0..8 {
+        let before = snapshot(&pd, rank);
+        let fbytes = font.clone();
+        let rdc = rd.clone();
+        let pdref = &mut pd;
+        let res = catch(std::panic::AssertUnwindSafe(move || {
+            let f = FontRef::new(&fbytes).unwrap();
+            match PatchGroup::select_next_patches(f, &rdc) {
+                Ok(g) => {
+                    let us: Vec<String> = g.uris().map(|s| s.to_string()).collect();
+                    Some((us, g.apply_next_patches(pdref).ok()))
+                }
+                Err(_) => None,
+            }
+        }));
+        st.evaluations += 1;
+        match res {
+            Err(p) => {
+                st.oracle_failure(json!({"key": format!("loop-panic/{}", key), "what": "panic in select/apply round", "panic": p}));
+                break;
+            }
+            Ok(None) => break,
+            Ok(Some((us, applied))) => {
+                let after = snapshot(&pd, rank);
+                match applied {
+                    Some(new_font) => {
+                        ok_rounds += 1;
+                        st.count("loop.round_ok");
+                        let pb = before.iter().filter(|x| x.1).count();
+                        let pa = after.iter().filter(|x| x.1).count();
+                        let newly: Vec<i64> = before.iter().filter(|(u, p)| *p && after.contains(&(*u, false))).map(|x| x.0).collect();
+                        let reverted = before.iter().any(|(u, p)| !*p && after.contains(&(*u, true)));
+                        let in_group = newly.iter().any(|u| us.iter().any(|s| rank.get(s) == Some(u)));
+                        if pa >= pb || reverted || !in_group || before.len() != after.len() {
+                            st.oracle_failure(json!({"key": format!("loop-progress/{}", key), "what": "an Ok round did not move a URI of the group from Pending to Applied (or reverted one)", "before": format!("{:?}", before), "after": format!("{:?}", after), "uris": us}));
+                        }
+                        out.push((before, Some(after)));
+                        font = new_font;
+                    }
+                    None => {
+                        st.count("loop.round_err");
+                        if before != after {
+                            st.oracle_failure(json!({"key": format!("loop-err-mutates/{}", key), "what": "a failed round changed patch_data", "before": format!("{:?}", before), "after": format!("{:?}", after)}));
+                        }
+                        out.push((before, None));
+                        break;
+                    }
+                }
+            }
+        }
+    }
+    if ok_rounds > initial_pending {
+        st.oracle_failure(json!({"key": format!("loop-termination/{}", key), "what": "more successful rounds than pending URIs", "rounds": ok_rounds, "pending": initial_pending}));
+    }
+    out
+}
+
 // ---------------------------------------------------------------- main
 
 fn main() {
@@ -853,12 +965,14 @@ fn main() {
     let nfonts = if thorough { 3600 } else { 450 };
     for fi in 0..nfonts {
         let malformed = fi % 9 == 8;
-        let o = GenOpts { malformed, mode: rng.below(4) };
+        let o = GenOpts { malformed, mode: if fi % 5 == 4 && !malformed { 4 } else { rng.below(4) } };
         let layout = rng.below(20);
         let same_cid = rng.chance(1, 15);
         let mut tables: Vec<ATable> = vec![];
         let t0 = *rng.pick(TEMPLATES);
-        let t1 = if rng.chance(1, 2) { t0 } else { *rng.pick(TEMPLATES) };
+        let t1 = if o.mode == 4 { TEMPLATES[3] } else if rng.chance(1, 2) { t0 } else { *rng.pick(TEMPLATES) };
+        let t0 = if o.mode == 4 { TEMPLATES[0] } else { t0 };
+        let same_cid = same_cid && o.mode != 4;
         // invalid templates only in the malformed stream
         let fix = |t: (&'static str, bool)| if !t.1 && !malformed { TEMPLATES[0] } else { t };
         if layout < 17 {
@@ -906,12 +1020,15 @@ fn main() {
                 };
                 // ---- model case
                 let sel_ranks: Option<Vec<i64>> = sel.as_ref().map(|us| us.iter().map(|u| rank.get(u).copied().unwrap_or(-2)).collect());
+                let rounds = if o.mode == 4 && sel.is_some() && di < 3 { run_loop(&mut rng, &tables, &d, &rank, &mut st, &key) } else { vec![] };
+                let c_pd = |v: &PdObs| clist(v.iter(), |(u, p)| format!("({}, {})", cz(*u as i128), cbool(*p)));
                 cw.push(format!(
-                    "({}, {}, {}, {})",
+                    "({}, {}, {}, {}, {})",
                     clist(tables.iter(), |t| c_table(t, &rank)),
                     c_def(&d),
                     copt(off.as_ref().map(|v| clist(v.iter(), |o| c_obs(o, &rank)))),
-                    copt(sel_ranks.as_ref().map(|v| czlist(v.iter().map(|x| *x as i128))))
+                    copt(sel_ranks.as_ref().map(|v| czlist(v.iter().map(|x| *x as i128)))),
+                    clist(rounds.iter(), |(b, a)| format!("({}, {})", c_pd(b), copt(a.as_ref().map(|x| c_pd(x)))))
                 ));
                 // ---- distribution
                 match (&off, &sel) {
